@@ -409,7 +409,8 @@ def havoc_all_but(fields_by_class, keep, wf=()):
                     for kv in keeps:
                         E.assume(z3.Select(new, kv.t) == z3.Select(old, kv.t))
                     E.heap[key] = new
-                    E.note_write(key, z3.Int("any!ref"))
+                    # recorded with its keep-set: an enclosing invariant loop havocs "everything but the kept objects"
+                    E.note_write(key, ("allbut", tuple(kv.t for kv in keeps)))
         for clause in wf:
             # system-wide well-formedness the opaque parts are ASSUMED to preserve (listed in the evidence)
             E.assume(E.spec_eval(clause))
